@@ -56,6 +56,8 @@ where
     iodriver: IoDriver,
     corrupted_blobs: AtomicUsize,
     fsync_in_progress: AtomicBool,
+    #[cfg(feature = "pearl_verif")]
+    pub(crate) verif: Arc<crate::verif::BgCounters>,
 }
 
 #[derive(Debug)]
@@ -1109,6 +1111,8 @@ where
             next_blob_id: AtomicUsize::new(0),
             iodriver,
             corrupted_blobs: AtomicUsize::new(0),
+            #[cfg(feature = "pearl_verif")]
+            verif: Default::default(),
             fsync_in_progress: AtomicBool::new(false)
         }
     }
@@ -1449,5 +1453,16 @@ where
 
         let closed = safe.blobs.read().await.filter_memory_allocated().await;
         active + closed
+    }
+}
+
+#[cfg(feature = "pearl_verif")]
+impl<K> Storage<K>
+where
+    for<'a> K: Key<'a> + 'static,
+{
+    /// Verification hook: snapshot of the background worker state
+    pub fn verif_bg(&self) -> crate::verif::BgState {
+        self.inner.verif.snapshot()
     }
 }
